@@ -9,6 +9,7 @@ def lookupHandler (fam : String) : Option Handler :=
   match fam with
   | "posit" => some positHandler
   | "quire" => some quireHandler
+  | "pconv" => some pconvHandler
   | _ => none
 
 end UVerif.Driver
